@@ -16,7 +16,7 @@ import (
 
 var c12Fn = reg("C12", "c12-fn", checkEvalCase)
 
-var langTags = []string{"en", "EN", "en-US", "en-us", "en-GB", "de", "de-CH-1996", "zh", "zh-TW", "zh-Hant-TW", "x-private", "eng", "e", "", "fr-CA", "i-klingon", "en-", "zh-Hant", "de-CH", "en-GB-oxendict", "en-GB-", "zh-Hant-T",
+var langTags = []string{"en", "EN", "en-US", "en-us", "en-GB", "de", "de-CH-1996", "zh", "zh-TW", "zh-Hant-TW", "x-private", "eng", "e", "", "fr-CA", "i-klingon", "en-", "zh-Hant", "de-CH", "en-GB-oxendict", "en-GB-", "zh-Hant-T", "en_US", "en_us", "pt_BR", "pt-BR", "pt", "en.US", "en US", "en--US",
 	// only ASCII case is ignored: these pairs differ in the case of non-ASCII letters (or in a
 	// character whose lower-case form is an ASCII letter) and do not match each other
 	"en-x-MÜNCHEN", "en-x-münchen", "ΕΛ-GR", "ελ", "\u212a", "k", "K", "tr-İ", "tr-i"}
